@@ -44,9 +44,11 @@ const (
 	KNow                // wants a clock tick, then reads the clock
 	KFS                 // file-system operation (fault point)
 	KChoice             // wants a number in [0,n)
+	KTryLock            // TryLock on obj: answered by the lock model
+	KTryRLock           // TryRLock on obj
 )
 
-var kindNames = [...]string{"start", "yield", "woke", "lock", "rlock", "select", "now", "fs", "choice"}
+var kindNames = [...]string{"start", "yield", "woke", "lock", "rlock", "select", "now", "fs", "choice", "trylock", "tryrlock"}
 
 func (k Kind) String() string { return kindNames[k] }
 
@@ -798,6 +800,22 @@ func (s *Sim) release(t *Task) {
 	case KRLock:
 		l := s.lockOf(t.obj, true)
 		l.readers = append(l.readers, t)
+	case KTryLock:
+		l := s.lockOf(t.obj, t.aux == "rw")
+		if l.w == nil && len(l.readers) == 0 {
+			l.w, l.wActive = t, true
+			t.ansI = 1
+		} else {
+			t.ansI = 0
+		}
+	case KTryRLock:
+		l := s.lockOf(t.obj, true)
+		if l.w == nil {
+			l.readers = append(l.readers, t)
+			t.ansI = 1
+		} else {
+			t.ansI = 0
+		}
 	case KSelect:
 		// priority order for n cases, Fisher-Yates from the tape
 		n := t.n
@@ -1026,6 +1044,57 @@ func RLock(m *sync.RWMutex, site string) {
 func RUnlock(m *sync.RWMutex, site string) {
 	m.RUnlock()
 	unlockNote(2, rwAddr(m))
+}
+
+//go:norace
+func tryReq(site string, obj uintptr, k Kind, rw string) int {
+	t := current()
+	if t == nil || t.dying {
+		return -1
+	}
+	t.aux = rw
+	request(t, k, site, obj, 0)
+	return t.ansI
+}
+
+// TryLock etc.: the model decides; the real TryLock then cannot fail.
+func TryLock(m *sync.Mutex, site string) bool {
+	switch tryReq(site, mutexAddr(m), KTryLock, "") {
+	case -1:
+		return m.TryLock()
+	case 1:
+		if !m.TryLock() {
+			panic("simrt: lock model and real mutex disagree")
+		}
+		return true
+	}
+	return false
+}
+
+func RWTryLock(m *sync.RWMutex, site string) bool {
+	switch tryReq(site, rwAddr(m), KTryLock, "rw") {
+	case -1:
+		return m.TryLock()
+	case 1:
+		if !m.TryLock() {
+			panic("simrt: lock model and real mutex disagree")
+		}
+		return true
+	}
+	return false
+}
+
+func TryRLock(m *sync.RWMutex, site string) bool {
+	switch tryReq(site, rwAddr(m), KTryRLock, "rw") {
+	case -1:
+		return m.TryRLock()
+	case 1:
+		if !m.TryRLock() {
+			panic("simrt: lock model and real mutex disagree")
+		}
+		return true
+	}
+	return false
 }
 
 // Method values (unlock := mu.Unlock): the receiver is bound now, the
